@@ -24,7 +24,7 @@ pub struct Pending<'a> {
     pub method: String,
 }
 
-const ITER_SOURCES: &[&str] = &["iter", "iter_mut", "into_iter", "chunks", "chunks_exact", "chunks_mut", "windows", "bytes", "chars", "drain"];
+const ITER_SOURCES: &[&str] = &["iter", "iter_mut", "into_iter", "chunks", "chunks_exact", "chunks_mut", "chunks_exact_mut", "rchunks", "rchunks_exact", "rchunks_mut", "rchunks_exact_mut", "windows", "bytes", "chars", "drain"];
 const ITER_ADAPT_SAME: &[&str] = &["enumerate", "rev", "copied", "cloned", "by_ref", "peekable", "fuse"];
 const ITER_ADAPT_N: &[&str] = &["take", "skip", "step_by"];
 const ITER_LAZY_CLOSURE: &[&str] = &["map", "inspect"];
@@ -180,6 +180,19 @@ impl Tr {
                     }
                 }
                 cx.bind_pat(&l.pat, public);
+                // CHOICE-VAR / ITER-VAR bookkeeping
+                if let (Some(init), Pat::Ident(pi)) = (&l.init, &l.pat) {
+                    let is_choice = self.mentions_choice(cx, &init.expr);
+                    let info = if pi.mutability.is_none() && matches!(strip(&init.expr), Expr::MethodCall(_) | Expr::Call(_)) {
+                        let (mut tmp, mut pend) = (vec![], vec![]);
+                        self.analyse_iter(cx, &init.expr, false, &mut tmp, &mut pend)
+                    } else { None };
+                    if let Some(b) = cx.lookup(&pi.ident.to_string()) {
+                        let id = b.id;
+                        if is_choice { cx.choice_vars.insert(id); }
+                        if let Some(i) = info { cx.iter_vars.insert(id, i); }
+                    }
+                }
                 // ARRAY-MAP bookkeeping: an immutable binding of an array literal has that literal's length
                 if let (Some(init), Pat::Ident(pi)) = (&l.init, &l.pat) {
                     if let (Expr::Array(a), None) = (strip(&init.expr), &pi.mutability) {
@@ -402,6 +415,11 @@ impl Tr {
                     why: "LEN: length of an array/slice/Vec is a public size".into(),
                 })
             }
+            Expr::Path(p) if p.path.get_ident().and_then(|i| cx.lookup(&i.to_string())).map_or(false, |b| cx.iter_vars.contains_key(&b.id)) => {
+                // ITER-VAR: an immutable binding of an iterator expression analysed at its `let`
+                let id = p.path.get_ident().and_then(|i| cx.lookup(&i.to_string())).map(|b| b.id)?;
+                cx.iter_vars.get(&id).cloned()
+            }
             Expr::Path(_) | Expr::Field(_) | Expr::Index(_) if allow_place => {
                 nodes.extend(self.walk_expr(cx, e));
                 Some(IterInfo {
@@ -515,7 +533,7 @@ impl Tr {
             let is_repo = match &ty {
                 Some(t) => self.repo_types.contains(t) && self.repo.iter().any(|r| r.impl_ty.as_deref() == Some(t) && r.name == last),
                 None => self.repo.iter().filter(|r| r.impl_ty.is_none() && r.name == last).count() == 1
-                    && self.cfg_fns.iter().all(|f| !(f.impl_ty.is_none() && f.fn_name == last)),
+                    && self.cfg_fns.iter().all(|f| f.auto || !(f.impl_ty.is_none() && f.fn_name == last)),
             };
             if is_repo {
                 found = Some(self.auto_fn(ty.as_deref(), last));
@@ -819,19 +837,27 @@ impl Tr {
             Expr::Try(t) => {
                 let inner = strip(&t.expr);
                 let mut listed = None;
+                // ABORT-TRY: `?` on the result of another LISTED operation, or (ABORT-TRY-HELPER) of an analysed repo function
+                // whose own skeleton contains an abort point: the helper's declassified consistency-check exit propagated
                 match inner {
                     Expr::Call(c) => {
                         if let Expr::Path(p) = strip(&c.func) {
-                            if let Some(op) = self.resolve_path_call(cx, &path_name(&p.path)) {
-                                if self.done.get(&op).map_or(false, |s| s.listed) {
+                            self.pending_arg_pub = Some(c.args.iter().map(|a| cx.is_pub(a)).collect());
+                            let r = self.resolve_path_call(cx, &path_name(&p.path));
+                            self.pending_arg_pub = None;
+                            if let Some(op) = r {
+                                if self.done.get(&op).map_or(false, |s| s.listed) || self.skel_has_abort(&op, 0) {
                                     listed = Some(op);
                                 }
                             }
                         }
                     }
                     Expr::MethodCall(m) => {
-                        if let Some(op) = self.resolve_method_call(cx, m) {
-                            if self.done.get(&op).map_or(false, |s| s.listed) {
+                        self.pending_arg_pub = Some(m.args.iter().map(|a| cx.is_pub(a)).collect());
+                        let r = self.resolve_method_call(cx, m);
+                        self.pending_arg_pub = None;
+                        if let Some(op) = r {
+                            if self.done.get(&op).map_or(false, |s| s.listed) || self.skel_has_abort(&op, 0) {
                                 listed = Some(op);
                             }
                         }
@@ -852,7 +878,9 @@ impl Tr {
                 if let Some(x) = &r.expr {
                     out.extend(self.walk_expr(cx, x));
                 }
-                if cx.depth_loop > 0 || cx.depth_sec > 0 || cx.depth_branch > 0 {
+                if cx.allow_return_at == Some(pos_of(e)) && cx.depth_loop == 0 && cx.depth_sec == 0 {
+                    // GUARD-RETURN: modelled by the enclosing ifPub
+                } else if cx.depth_loop > 0 || cx.depth_sec > 0 || cx.depth_branch > 0 {
                     let id = self.new_cond(cx, pos_of(e), "early-return", &norm(e));
                     out.push(Node::ExitSec(id));
                 }
@@ -885,6 +913,39 @@ impl Tr {
         }
     }
 
+    /// the statements of a FUNCTION body.  allow-rule GUARD-RETURN: a top-level `if <public cond> { ..; return X; }` without else
+    /// is modelled exactly: `ifPub c {then} {rest of the function}` — the early return is public control flow.
+    pub fn walk_fn_stmts(&mut self, cx: &mut FnCtx, stmts: &[Stmt]) -> Vec<Node> {
+        let mut out = vec![];
+        for (k, s) in stmts.iter().enumerate() {
+            if let Stmt::Expr(Expr::If(i), _) = s {
+                let cond = strip(&i.cond);
+                let last_ret = match i.then_branch.stmts.last() {
+                    Some(Stmt::Expr(r @ Expr::Return(_), _)) => Some(pos_of(r)),
+                    _ => None,
+                };
+                if let (None, Some(rpos), false) = (&i.else_branch, last_ret, matches!(cond, Expr::Let(_))) {
+                    if cx.is_pub(cond) && !self.is_abort_cond(cx, cond) && cx.depth_loop == 0 && cx.depth_sec == 0 && cx.depth_branch == 0 {
+                        let cond_txt = norm(cond);
+                        let header = format!("if {cond_txt}");
+                        out.extend(self.walk_expr(cx, cond));
+                        let id = self.new_cond(cx, pos_of(i), "if-public (guard return)", &cond_txt);
+                        cx.depth_branch += 1;
+                        cx.allow_return_at = Some(rpos);
+                        let t = self.walk_block(cx, &i.then_branch, Some(("then", &header)), false);
+                        cx.allow_return_at = None;
+                        cx.depth_branch -= 1;
+                        let e = self.walk_fn_stmts(cx, &stmts[k + 1..]);
+                        out.push(Node::IfPub { id, t, e });
+                        return out;
+                    }
+                }
+            }
+            out.extend(self.walk_stmt(cx, s));
+        }
+        out
+    }
+
     // ---------------------------------------------------------------- if
     fn walk_if(&mut self, cx: &mut FnCtx, i: &ExprIf) -> Vec<Node> {
         let mut out = vec![];
@@ -895,7 +956,7 @@ impl Tr {
         let header = format!("if {cond_txt}");
 
         // (1) declassified consistency check: `if <.. ct_ne/ct_eq ..>.into() { return Err(..) }`
-        if i.else_branch.is_none() && self.is_abort_cond(cond) && Self::is_return_err_block(&i.then_branch) {
+        if i.else_branch.is_none() && self.is_abort_cond(cx, cond) && Self::is_return_err_block(&i.then_branch) {
             out.extend(self.walk_expr(cx, cond));
             let id = self.new_cond(cx, pos_of(i), "abort", &cond_txt);
             let site = self.new_site(cx, "abort-body", i.then_branch.stmts.first().map(|s| pos_of(s)).unwrap_or(pos_of(&i.then_branch)), end_of(&i.then_branch), &header);
@@ -1004,15 +1065,22 @@ impl Tr {
         }
     }
 
-    fn is_abort_cond(&self, c: &Expr) -> bool {
+    fn is_abort_cond(&self, cx: &FnCtx, c: &Expr) -> bool {
         // `<X>.into()` or `bool::from(<X>)` where X calls ct_ne / ct_eq
         let inner = match strip(c) {
             Expr::MethodCall(m) if m.method == "into" && m.args.is_empty() => &*m.receiver,
             Expr::Call(call) if squash(&call.func) == "bool::from" && call.args.len() == 1 => &call.args[0],
             _ => return false,
         };
-        let t = norm(inner);
-        self.abort_preds.iter().any(|p| t.split(|ch: char| !(ch.is_alphanumeric() || ch == '_')).any(|w| w == p))
+        self.mentions_choice(cx, inner)
+    }
+
+    /// the expression calls ct_eq / ct_ne (ops.json `abort_predicates`) or mentions a CHOICE-VAR
+    fn mentions_choice(&self, cx: &FnCtx, e: &Expr) -> bool {
+        let t = norm(e);
+        t.split(|ch: char| !(ch.is_alphanumeric() || ch == '_')).any(|w| {
+            self.abort_preds.iter().any(|p| w == p) || cx.lookup(w).map_or(false, |b| cx.choice_vars.contains(&b.id))
+        })
     }
 
     fn is_return_err_block(b: &Block) -> bool {
@@ -1076,7 +1144,10 @@ impl Tr {
                 return out;
             }
         }
-        if let Some(op) = self.resolve_path_call(cx, &fname) {
+        self.pending_arg_pub = Some(args.iter().map(|a| cx.is_pub(a)).collect());
+        let resolved = self.resolve_path_call(cx, &fname);
+        self.pending_arg_pub = None;
+        if let Some(op) = resolved {
             self.sec_arg_check(cx, &op, None, &args, &wh, &mut out);
             out.push(Node::Call { op });
             return out;
@@ -1230,7 +1301,10 @@ impl Tr {
         if n.ends_with("_mut") {
             cx.taint_root(&m.receiver);
         }
-        if let Some(op) = self.resolve_method_call(cx, m) {
+        self.pending_arg_pub = Some(args.iter().map(|a| cx.is_pub(a)).collect());
+        let resolved = self.resolve_method_call(cx, m);
+        self.pending_arg_pub = None;
+        if let Some(op) = resolved {
             self.sec_arg_check(cx, &op, Some(&m.receiver), &args, &wh, &mut out);
             out.push(Node::Call { op });
             return out;
